@@ -24,4 +24,8 @@ CASES = [
      "edits": [("io/blackbird_io.py", 'op["args"] = list(cmd.op.p)', 'op["args"] = cmd.op.p[:]')]},
     {"id": "xir-writer-evaluates-symbolic-parameters", "expect": "fire", "key": "C14.fields",
      "edits": [("io/xir_io.py", '                    if not getattr(a, "free_symbols", None):\n                        try:\n', '                    if True:\n                        try:\n')]},
+    {"id": "xir-reader-sends-strings-to-the-list-converter", "expect": "fire", "key": "C14.reader-types",
+     "edits": [("io/xir_io.py", "                        elif isinstance(p, str):\n", "                        elif isinstance(p, bytes):\n")]},
+    {"id": "twin-xir-reader-excludes-strings-in-the-test", "expect": "silent",
+     "edits": [("io/xir_io.py", "                        elif isinstance(p, Iterable):\n                            params.append(np.array(_listr(p)))", "                        elif isinstance(p, Iterable) and not isinstance(p, str):\n                            params.append(np.array(_listr(p)))")]},
 ]
